@@ -78,7 +78,13 @@ func c11Case(w *core.Worker, i int) {
 	} else {
 		p = genTxProc(r, r.Range(2, 6))
 	}
+	if i%4 == 1 {
+		// statements preloaded from ./csvqrc run before the program, in the same session: ending csvq there is ending it
+		p.Files["csvqrc"] = "SELECT COUNT(*) FROM `f1` FOR UPDATE;\nUPDATE `f2` SET c1 = 'rc' WHERE id = 1;\n"
+		w.Count("procedures_with_a_preloaded_part", 1)
+	}
 	base := core.FreshDir(w.Work, "base")
+	_ = os.WriteFile(filepath.Join(w.Work, "noop.sql"), []byte("PRINT 'sourced';\n"), 0644)
 	core.WriteFiles(base, p.Files)
 	// make mtimes old so that "touched" is observable
 	old := time.Now().Add(-48 * time.Hour)
@@ -156,6 +162,12 @@ func c11Case(w *core.Worker, i int) {
 			}
 			env := []string{fmt.Sprintf("VERIF_SIGNAL_AT=%s:%s", pt, sg)}
 			variant := "SIG" + sg + "@" + pt
+			if (k+si)%4 == 1 {
+				// the same signal again once the first has been taken
+				env = append(env, "VERIF_SIGNAL_TWICE=1")
+				variant = "SIG" + sg + "x2@" + pt
+				w.Count("runs_with_a_repeated_signal", 1)
+			}
 			d, vr := runKeep(p.Text(), env)
 			judge(d, vr, variant, env)
 			delivered := vr.res.Signal != 0 || vr.res.Code >= 128 || vr.res.Code == 8
@@ -176,6 +188,7 @@ func c11Case(w *core.Worker, i int) {
 func c11Locks(w *core.Worker, r *core.Rng, i int) {
 	p := genTxProc(r, 0)
 	base := core.FreshDir(w.Work, "base")
+	_ = os.WriteFile(filepath.Join(w.Work, "noop.sql"), []byte("PRINT 'sourced';\n"), 0644)
 	core.WriteFiles(base, p.Files)
 	baseSnap := core.TakeSnap(base)
 	digest := core.Digest("locks", fmt.Sprint(i))
